@@ -35,7 +35,54 @@ def _tomo(tshape, kind, dtype="float32", offset=0.0):
     return da.from_array(arr, chunks=chunks), arr
 
 
+def replay_quarter(case) -> dict:
+    """Quarter-pixel positions, identity orientation (SamplingQ.tla): order 0 shows the NEAREST voxel, order 1 the trilinear mix."""
+    from acryo import BatchLoader, Molecules, SubtomogramLoader
+
+    cfg = case["cfg"]
+    h = int(case["_h"])
+    tshape = tuple(case["tshape"])
+    entry = ENTRY[h % 4]
+    kind = ("numpy", "dask_chunked", "dask_single")[(h // 4) % 3]
+    scale = (1.0, 2.0, 0.5)[(h // 12) % 3]
+    ldr_kind = ("single", "batch2")[(h // 36) % 2]
+    cs = bool((h // 72) % 2)
+    img, ref = _tomo(tshape, kind)
+    flat = ref.ravel()
+    shape = tuple(cfg["shape"])
+    mole = Molecules((np.array(cfg["P4"], dtype=np.float64) / 4.0 * scale)[None, :])
+    desc = dict(fam="quarter", order=cfg["order"], cs=cs, shape=list(shape), entry=entry, image=kind, scale=scale, P4=cfg["P4"], loader=ldr_kind)
+    if ldr_kind == "single":
+        loader = SubtomogramLoader(img, mole, order=cfg["order"], scale=scale, corner_safe=cs, output_shape=shape)
+    else:
+        loader = BatchLoader(order=cfg["order"], scale=scale, corner_safe=cs, output_shape=shape)
+        loader.add_tomogram(img, mole)
+    if entry == "load_i":
+        sub = engine.api(loader.load, 0)
+    elif entry == "asnumpy":
+        sub = engine.api(loader.asnumpy)[0]
+    elif entry == "load_iter":
+        sub = list(engine.api(loader.load_iter))[0]
+    else:
+        sub = engine.api(lambda: loader.construct_dask().compute())[0]
+    sub = np.asarray(sub, dtype=np.float64)
+    if sub.shape != shape or not np.all(np.isfinite(sub)):
+        return dict(failures=[dict(desc, clause="Shape" if sub.shape != shape else "NotFinite")])
+    got = sub.ravel()
+    nexact = 0
+    for n, mix in enumerate(case["expect"]):
+        if not mix:
+            continue
+        nexact += 1
+        want = sum(float(flat[i]) * w for i, w in mix) / 64.0
+        if abs(got[n] - want) > 0.02:
+            return dict(failures=[dict(desc, clause="VoxelRule", voxel=n, observed=round(float(got[n]), 3), expected=round(want, 3), nsrc=len(mix))])
+    return dict(failures=[], classes={"exact_voxels": nexact, "quarter_cases": 1})
+
+
 def replay(case) -> dict:
+    if case.get("cfg", {}).get("P4") is not None:
+        return replay_quarter(case)
     from scipy.spatial.transform import Rotation
     from acryo import Molecules, SubtomogramLoader
     from acryo._utils import SubvolumeOutOfBoundError
@@ -55,6 +102,13 @@ def replay(case) -> dict:
     dtype = ("float32", "float64")[(h // 72) % 2]
     # where the box shape comes from: the constructor; the call, overriding a SMALLER default; the call, no default at all
     omode = ("ctor", "override", "call_only")[(h // 144) % 3]
+    # how the loader comes into being: the constructor; SubtomogramLoader.imread of an MRC file whose header carries the scale;
+    # BatchLoader.from_loaders of two single loaders
+    route = ("ctor", "imread", "from_loaders")[(h // 432) % 3]
+    if route == "imread" and (ldr_kind != "single" or dtype != "float32"):
+        route = "ctor"
+    if route == "from_loaders" and ldr_kind != "batch2":
+        route = "ctor"
     img, ref = _tomo(tshape, kind, dtype)
     flat = ref.ravel()
     shape = tuple(cfg["shape"])
@@ -62,14 +116,47 @@ def replay(case) -> dict:
     rot = Rotation.from_matrix(np.array([cfg["R"]], dtype=float))
     mole = Molecules((pos_px * scale)[None, :], rot)
     desc = dict(order=cfg["order"], cs=cfg["cs"], shape=list(shape), fam=cfg["fam"], entry=entry, image=kind, scale=scale,
-                P2=cfg["P2"], loader=ldr_kind, dtype=dtype, shape_from=omode)
+                P2=cfg["P2"], loader=ldr_kind, dtype=dtype, shape_from=omode, route=route)
     failures = []
     try:
         sub2 = None
         okw = {} if omode == "ctor" else dict(output_shape=shape)
         ckw = dict(output_shape=shape) if omode == "ctor" else (dict(output_shape=(2, 2, 2)) if omode == "override" else {})
-        if ldr_kind == "single":
+        if route == "imread":
+            import os, shutil, tempfile
+            import mrcfile
+
+            tmpd = tempfile.mkdtemp(prefix="c02-")
+            try:
+                path = os.path.join(tmpd, "t.mrc")
+                with mrcfile.new(path) as mrc:
+                    mrc.set_data(np.asarray(ref, dtype=np.float32))
+                    mrc.voxel_size = scale * 10.0
+                loader = SubtomogramLoader.imread(path, mole, order=cfg["order"], corner_safe=cfg["cs"],
+                                                  chunks=(3, 4, 4) if kind == "dask_chunked" else "auto", **ckw)
+                if abs(loader.scale - scale) > 1e-6:
+                    failures.append(dict(desc, clause="ScaleFromHeader", observed=float(loader.scale)))
+                # the file is memory-mapped lazily: everything is loaded before the directory goes away
+                if entry == "load_i":
+                    sub = np.asarray(loader.load(0, **okw))
+                elif entry == "asnumpy":
+                    sub = np.asarray(loader.asnumpy(**okw)[0])
+                elif entry == "load_iter":
+                    sub = np.asarray(list(loader.load_iter(**okw))[0])
+                else:
+                    sub = np.asarray(loader.construct_dask(**okw).compute()[0])
+            finally:
+                shutil.rmtree(tmpd, ignore_errors=True)
+        elif ldr_kind == "single":
             loader = SubtomogramLoader(img, mole, order=cfg["order"], scale=scale, corner_safe=cfg["cs"], **ckw)
+        elif route == "from_loaders":
+            from acryo import BatchLoader
+
+            img2, _ = _tomo(tshape, kind, dtype, offset=5000.0)
+            # the members' own settings are not the batch's: the batch is built with its own order / scale / box
+            l1 = SubtomogramLoader(img, mole, order=1, scale=scale, output_shape=(2, 2, 2))
+            l2 = SubtomogramLoader(img2, mole.copy(), order=3, scale=scale)
+            loader = BatchLoader.from_loaders([l1, l2], order=cfg["order"], scale=scale, corner_safe=cfg["cs"], **ckw)
         else:
             # two tomograms of the same shape, a molecule at the same pose in each: row 0 must come from the first
             # tomogram, row 1 from the second (which is the first one + 5000)
@@ -79,7 +166,9 @@ def replay(case) -> dict:
             loader = BatchLoader(order=cfg["order"], scale=scale, corner_safe=cfg["cs"], **ckw)
             loader.add_tomogram(img, mole)
             loader.add_tomogram(img2, mole.copy())
-        if entry == "load_i":
+        if route == "imread":
+            pass
+        elif entry == "load_i":
             sub = loader.load(0, **okw)
             sub2 = loader.load(1, **okw) if ldr_kind == "batch2" else None
         elif entry == "asnumpy":
@@ -133,6 +222,7 @@ def replay(case) -> dict:
                                      expected=float(np.mean([flat[i] for i in src])) + 5000.0))
                 break
     classes["exact_voxels"] = nexact
+    classes["route_" + route] = 1
     classes["finite_only_voxels"] = len(case["expect"]) - nexact
     return dict(failures=failures, classes=classes)
 
@@ -151,25 +241,36 @@ def run(rep: engine.Report, tier: str, seed: int):
     # drop interior cases in which the rule fixes no voxel at all (e.g. order 0 between grid points)
     useful = [c for c in cases if c["cfg"]["fam"] == "boundary" or any(c["expect"])]
     for i, c in enumerate(useful):
-        c["_h"] = (i * 7919 + seed) % 432
+        c["_h"] = (i * 7919 + seed) % 1296
     budget = 4000 if tier == "quick" else len(useful)
     sel = engine.stratified_sample(useful, _stratum, budget, seed)
     rep.exhaustive = len(sel) == len(useful)
+    # quarter-pixel positions (SamplingQ.tla): what "interpolated at the loader's order" means off the half-pixel lattice
+    mq = rep.add_tlc(engine.tlc("MC_C02q", "MC_C02q", workers=1))
+    qcases = [c for c in mq.emitted if any(c["expect"])]
+    if not qcases:
+        raise engine.MachineryError("MC_C02q emitted nothing")
+    for i, c in enumerate(qcases):
+        c["_h"] = (i * 7919 + seed) % 144
+    qsel = engine.stratified_sample(qcases, lambda c: (c["cfg"]["order"], tuple(c["cfg"]["shape"]), tuple(x % 4 for x in c["cfg"]["P4"])), 512 if tier == "quick" else len(qcases), seed)
+    sel = sel + qsel
     results = engine.parallel_replay("harness.props.c02", "replay", sel)
     engine.collect(rep, sel, results, key=lambda c: (c["cfg"], c["_h"]))
     rep.traces_validated = rep.evaluations
     memo.run_family(rep, ["loader_load_inplace"])
-    rep.samples = [dict(cfg=c["cfg"], outcome=c["outcome"], expect_head=c["expect"][:6]) for c in sel[:4]]
+    rep.samples = [dict(cfg=c["cfg"], outcome=c.get("outcome"), expect_head=c["expect"][:6]) for c in sel[:4]]
     rep.rule = (
         "TLC enumerates (a) every (position in half pixels, box length 1..6, order, tomogram length) on one axis for the "
         "crop-window lemmas, (b) 3-D cases on a 6x7x8 tomogram: all 24 orientations x 6 box shapes x 8 position parities x "
         "orders {0,1,3} x corner_safe (interior), and a sweep of each axis from fully outside through abutting and "
         "straddling positions plus corner straddles for 4 orientations x 3 boxes; for every case the exact source of "
         f"every voxel is emitted; {len(cases)} emitted, {len(useful)} with a decidable voxel or a boundary outcome, "
-        f"{len(sel)} replayed through load(i)/asnumpy/load_iter/construct_dask on numpy/dask tomograms at scales 1, 2, 1/2"
+        f"{len(sel)} replayed through load(i)/asnumpy/load_iter/construct_dask on numpy/dask tomograms at scales 1, 2, 1/2; "
+        f"(c) quarter-pixel positions (SamplingQ.tla: 64 offsets x 4 boxes x orders 0 and 1, identity orientation): nearest voxel at order 0, "
+        f"trilinear mix in 64ths at order 1, and the window lemma for an interpolator that treats coordinates above the last voxel centre as outside; {len(qsel)} replayed"
     )
     rep.assumptions += [
-        "order 0 between grid points and order 3 off-grid are only required to be finite",
+        "order 0 exactly half way between grid points (ties) and order 3 off-grid are only required to be finite",
         "linear interpolation at half-grid points is the mean of the 2^h neighbours (tolerance 0.02 on values >= 7 apart by 3)",
     ]
 
